@@ -573,7 +573,14 @@ func (d *V1) search(cmd, shape *Cmd, lek map[string]*dynamodb.AttributeValue) (o
 
 func (d *V1) batchWrite(cmd *Cmd) (o Outcome) {
 	req := map[string][]*dynamodb.WriteRequest{}
+	same := map[string]*dynamodb.WriteRequest{} // identical puts share one request value, as a caller reusing it would
 	for i, r := range cmd.Batch {
+		if r.Put != nil && !r.Both {
+			if w, ok := same[r.Put.Canon()]; ok {
+				req[r.T] = append(req[r.T], w)
+				continue
+			}
+		}
 		w := &dynamodb.WriteRequest{}
 		if r.Put != nil || r.Both {
 			it := itemToV1(r.Put)
@@ -584,6 +591,9 @@ func (d *V1) batchWrite(cmd *Cmd) (o Outcome) {
 			k := itemToV1(r.Del)
 			w.DeleteRequest = &dynamodb.DeleteRequest{Key: k}
 			d.keepIn(cmd.ID, fmt.Sprintf("batch[%d].Key", i), k)
+		}
+		if r.Put != nil && !r.Both {
+			same[r.Put.Canon()] = w
 		}
 		req[r.T] = append(req[r.T], w)
 	}
